@@ -1,5 +1,5 @@
 """C07 plan: Xml::decode total and safe, parent links, encode -> decode preserves the tree."""
-from ..core import Job
+from ..core import Job, FuzzJob
 from ..props import plan, COMMON_ASSUME
 from ..texts import T
 
@@ -37,14 +37,15 @@ plan('C07',
           '(judged when its names are well-formed); non-trivial = contains < or &; distinct = hash of the bytes. trunc: every prefix of generated documents of up to ~300 bytes. '
           'surplus / deep are strata for two defects: "</>" with nothing open (the byte sequence "</>" is broken up in all other modes) and nesting of 200..300000 levels; distinct = hash of bytes / (depth, form)',
      jobs=[
-         Job('c07_xml', 'roundtrip', 'asan', quick=9000, thorough=200000, shards=(8, 16)),
-         Job('c07_xml', 'roundtrip', 'plain', quick=24000, thorough=400000, shards=(4, 8)),
-         Job('c07_xml', 'parents', 'asan', quick=22000, thorough=600000, shards=(6, 16)),
-         Job('c07_xml', 'parents', 'plain', quick=36000, thorough=1000000, shards=(4, 8)),
-         Job('c07_xml', 'total', 'asan', quick=130000, thorough=3500000, shards=(6, 16)),
-         Job('c07_xml', 'total', 'plain', quick=180000, thorough=4000000, shards=(4, 16)),
-         Job('c07_xml', 'trunc', 'asan', quick=4500, thorough=100000, shards=(6, 16)),
-         Job('c07_xml', 'trunc', 'plain', quick=4500, thorough=150000, shards=(2, 8)),
+         FuzzJob('fz_xml', quick=150000, thorough=6000000, procs=(4, 12), max_len=400, dict_file='harness/fuzz/xml.dict'),
+         Job('c07_xml', 'roundtrip', 'asan', quick=9000, thorough=140000, shards=(8, 16)),
+         Job('c07_xml', 'roundtrip', 'plain', quick=24000, thorough=280000, shards=(4, 8)),
+         Job('c07_xml', 'parents', 'asan', quick=22000, thorough=400000, shards=(6, 16)),
+         Job('c07_xml', 'parents', 'plain', quick=36000, thorough=700000, shards=(4, 8)),
+         Job('c07_xml', 'total', 'asan', quick=130000, thorough=2400000, shards=(6, 16)),
+         Job('c07_xml', 'total', 'plain', quick=180000, thorough=3000000, shards=(4, 16)),
+         Job('c07_xml', 'trunc', 'asan', quick=4500, thorough=70000, shards=(6, 16)),
+         Job('c07_xml', 'trunc', 'plain', quick=4500, thorough=100000, shards=(2, 8)),
          Job('c07_xml', 'surplus', 'asan', quick=1000, thorough=20000, shards=(2, 4)),
          Job('c07_xml', 'surplus', 'plain', quick=1000, thorough=20000, shards=(1, 2)),
          Job('c07_xml', 'deep', 'asan', quick=54, thorough=54, shards=(6, 6), batch=1),
